@@ -223,6 +223,7 @@ theorem pickAction_measure {st st' : St σ} {s : Nat} (h : pickAction st s = .ok
   · rename_i isClient i a hfound
     -- the slot found is `some a` on side `isClient`
     have hslot : (st.side isClient).schedAction[i]? = some (some a) := by
+      unfold findAction at hfound
       split at hfound
       · rename_i j b hf
         cases hfound
